@@ -777,6 +777,18 @@ Proof.
   vm_compute. splits; reflexivity.
 Qed.
 
+(** C15-F9: a trusted X-Forwarded-Uri that url.Parse rejects is used as received for the
+    view (d3f6cd7), but its path does not decode: the rules decide about /%zz, the upstream gets / *)
+Theorem F9_refuted : exists q pl r,
+  guard_F9 q = true /\ spec_ok q pl r (serve repaired2 q pl r) = false /\
+  option_map u_rawpath (view_url q) = Some "/%zz" /\ forwarded_uri (serve repaired2 q pl r) = "/".
+Proof.
+  exists {| q_method := "GET"; q_raw := "/users"; q_query := ""; q_host := "h.example.com";
+            q_headers := [("X-Forwarded-Uri", "/%zz")]; q_body := ""; q_tls := false; q_peer := "127.0.0.2";
+            q_trusted := true; q_xfu := Some ("/%zz", "") |}, no_pl, (ex_rule NoDecode None).
+  vm_compute. splits; reflexivity.
+Qed.
+
 (** a request that exercises every sentence and none of the guards: escapes of
     reserved and unreserved bytes, an encoded slash, strip + add prefix, a
     repeated query parameter to remove, client headers colliding with pipeline
